@@ -345,4 +345,59 @@ example : inspect Walker.processControlStatements (fun _ => false)
     = some [] := by
   rw [processControlStatements_is_ctlHead]; rfl
 
+/-! ## the loop of `addStmts` over the top-level declarations -/
+
+/-- **`addStmts`, as translated from the source, produces `declEvents`.** For every top-level
+    declaration: the arm selected by the type switch — the single-line test on the body braces, the
+    statement walk, then the control pass (function declarations); the two passes over global value
+    specs (general declarations) — with the walker calls answered by the model, yields the model's
+    event list of the abstracted declaration, in the model's order. -/
+theorem addStmts_is_declEvents (ch : Nat → Bool) (d : GDecl) :
+    (unfold Walker.addStmts (.decl d)).map (expandD ch) = some (declEvents ch (abstrD d)) := by
+  cases d with
+  | funcDecl body =>
+    cases body with
+    | none =>
+      simp [unfold, Walker.addStmts, evalArms, GVal.kind, evalL, evalA, evalC, Ctx.resolve, resolveFrom, GVal.get,
+        GVal.nonNil, expandD, abstrD, declEvents]
+    | some b =>
+      obtain ⟨lb, rb, list⟩ := b
+      cases list with
+      | nil =>
+        simp [unfold, Walker.addStmts, evalArms, GVal.kind, evalL, evalA, evalC, Ctx.resolve, resolveFrom, GVal.get,
+          GVal.nonNil, GVal.len, expandD, abstrD, firstPos, declEvents]
+      | cons s0 ss =>
+        by_cases h : lb = rb
+        · have hb : (lb == rb) = true := by simp [h]
+          simp [unfold, Walker.addStmts, evalArms, GVal.kind, evalL, evalA, evalC, Ctx.resolve, resolveFrom, GVal.get,
+            GVal.nonNil, GVal.len, GVal.tokLine, expandD, expandItemD, expandItem, abstrD, firstPos, declEvents, hb,
+            GStmt.line, GStmt.col, abstrL]
+        · have hb : (lb == rb) = false := by simp [h]
+          simp [unfold, Walker.addStmts, evalArms, GVal.kind, evalL, evalA, evalC, Ctx.resolve, resolveFrom, GVal.get,
+            GVal.nonNil, GVal.len, GVal.tokLine, expandD, expandItemD, expandItem, abstrD, firstPos, declEvents, hb, abstrL]
+  | genDecl specs =>
+    simp [unfold, Walker.addStmts, evalArms, GVal.kind, evalL, evalA, Ctx.resolve, resolveFrom, GVal.get,
+      expandD, expandItemD, abstrD, declEvents]
+  | otherDecl =>
+    simp [unfold, Walker.addStmts, evalArms, GVal.kind, expandD, abstrD, declEvents, outerEs]
+
+/-- the whole file: every declaration step of the translated loop succeeds with the model's events
+    (`Mark.fileEvents` is their concatenation) -/
+theorem addStmts_file (ch : Nat → Bool) (ds : List GDecl) :
+    (ds.mapM fun d => (unfold Walker.addStmts (.decl d)).map (expandD ch)) = some (ds.map fun d => declEvents ch (abstrD d)) := by
+  induction ds with
+  | nil => rfl
+  | cons d r ih =>
+    simp only [List.mapM_cons, addStmts_is_declEvents] at ih ⊢
+    rw [ih]; rfl
+
+/-- non-vacuity: a one-line function body gets the single-line insert AND is walked; a body-less
+    declaration and an empty body produce nothing -/
+example : (unfold Walker.addStmts (.decl (.funcDecl (some (4, 4, [.ret 4 14 4 []]))))).map (expandD (fun _ => false))
+    = some [.single 4 14, .check 4] := by
+  rw [addStmts_is_declEvents]; rfl
+
+example : (unfold Walker.addStmts (.decl (.funcDecl none))).map (expandD (fun _ => true)) = some [] := by
+  rw [addStmts_is_declEvents]; rfl
+
 end GoatSpec.WalkerTie
